@@ -19,10 +19,14 @@ structure World where
   tmaps : List AMap          -- maps with pointer / slice / map values (values = table indices)
   tables : List (List Bytes) -- their value codecs
   tlast : List Bytes         -- the last encoding produced per typed map
+  arcAdded : ASet            -- one `SetMutations` object fed by the collector functions
+  arcDeleted : ASet
+  arcThr : Int
 
 def World.init : World :=
   { pm := PMap.empty, am := [], sets := [[], [], [], []], counts := fun _ => 0,
-    tmaps := [[], [], []], tables := [[], [], []], tlast := [[], [], []] }
+    tmaps := [[], [], []], tables := [[], [], []], tlast := [[], [], []],
+    arcAdded := [], arcDeleted := [], arcThr := 1 }
 
 def parseList (s : String) : Option (List Nat) :=
   if s == "-" then some [] else (s.splitOn ",").mapM (·.toNat?)
@@ -279,6 +283,19 @@ def stepLine (w : World) (toks : List String) : World × String :=
     | none => (w, "bad-op")
   -- SetArithmetic
   | ["arnew"] => ({ w with counts := fun _ => 0 }, "ok")
+  -- the collector functions themselves: `arcnew thr` = fresh SetMutations m with AddedElementsCollector(m, thr) and
+  -- SubtractedElementsCollector(m, thr); `arc + e` / `arc - e` = one call; the answer is m after the call
+  | ["arcnew", t] =>
+    match t.toInt? with
+    | some t => ({ w with arcAdded := [], arcDeleted := [], arcThr := t }, "ok")
+    | none => (w, "bad-op")
+  | ["arc", sign, e] =>
+    match e.toNat? with
+    | some e =>
+      let a : ArSt := { counts := w.counts, added := w.arcAdded, deleted := w.arcDeleted }
+      let a' := if sign == "+" then a.inc w.arcThr e else a.dec w.arcThr e
+      ({ w with counts := a'.counts, arcAdded := a'.added, arcDeleted := a'.deleted }, showMut (a'.added, a'.deleted))
+    | none => (w, "bad-op")
   | ["aradd", a, d, t] =>
     match parseList a, parseList d, t.toInt? with
     | some a, some d, some t =>
